@@ -24,6 +24,13 @@ Vocabulary
   sufficient — the setting of `C10_reach_iff_plain`.
 * "default node table": `c.withCanonicalTypes = false` and the graph's type-node table extends the one of
   `initGraph G c` (true of every graph the generator builds, by `C07_typeNodes_grow_*`).
+* `G.store`: the inference store at graph-building time. A node's STORED type may still show a variable that has
+  been bound since ("stale type"); `normT G.store ty` is the type read through the store. `addExpr` registers and
+  annotates `normT G.store ty` for a source and `normT G.store (outputType 1000 ty)` for an operator, but decides
+  "is the source's type canonical" on the stored `ty`. For a variable-free type `normT σ t = t`
+  (`Tfv.GraphN.normT_closed`); `annotateType` itself never looks at the store. Its optional last argument overrides
+  the "canonical" decision (used by the source branch); the statements about `annotateType` below are about the
+  default (no override), the two monotonicity statements hold for every override.
 -/
 namespace Tfv.C07Graph
 open Tfv Tfv.Tax Tfv.GraphEx
@@ -44,6 +51,13 @@ theorem C07_triples_mono_annotateType (G : GLang) (c : GCfg) (g : GState) (root 
     (mf : Bool) (g' : GState) (h : annotateType G c g root cur ty mf = .ok g') :
     (∀ tr, tr ∈ g.triples → tr ∈ g'.triples) ∧ (∃ l, g'.typeNodes = g.typeNodes ++ l) ∧ g'.fd = g.fd :=
   have s := annotateType_step G c g root cur ty mf g' h
+  ⟨s.triples_mono, (let ⟨l, hl, _⟩ := s.typeNodes_ext; ⟨l, hl⟩), s.fd_eq⟩
+
+/-- `annotateType` only adds, also when the caller decides `canonical` (the source branch of `addExpr`). -/
+theorem C07_triples_mono_annotateType_ov (G : GLang) (c : GCfg) (g : GState) (root : Node) (cur : Nat) (ty : Term)
+    (mf : Bool) (ov : Option Bool) (g' : GState) (h : annotateType G c g root cur ty mf ov = .ok g') :
+    (∀ tr, tr ∈ g.triples → tr ∈ g'.triples) ∧ (∃ l, g'.typeNodes = g.typeNodes ++ l) ∧ g'.fd = g.fd :=
+  have s := annotateType_step_ov G c g root cur ty mf ov g' h
   ⟨s.triples_mono, (let ⟨l, hl, _⟩ := s.typeNodes_ext; ⟨l, hl⟩), s.fd_eq⟩
 
 /-- **`addExpr` only adds**: triples stay, the type-node table grows at its end, blank-node numbers are never
@@ -107,7 +121,7 @@ example : ((addExpr exG {} GraphEx.root none (initGraph exG {}) (.op "f" (tmFn t
       (fun p => (p.2, p.1.triples)))
     = some (7, [(.b 7, .tf "via", .ns "f"), (GraphEx.root, .tf "containsOperation", .ns "f"),
         (.b 7, .tf "type", .ns "B"), (.b 7, .tf "subtypeOf", .ns "B"), (GraphEx.root, .tf "containsType", .ns "B"),
-        (GraphEx.root, .tf "containsType", .ns "A"), (.b 7, .tf "subtypeOf", .ns "A")]) := by decide +kernel
+        (GraphEx.root, .tf "containsType", .ns "A"), (.b 7, .tf "subtypeOf", .ns "A")]) := by graph_eval
 
 /-- **The `subtypeOf` annotations of a node with a canonical type** (`with_supertypes` on), any node table.
 After `annotateType`: (1) the type itself is registered and the node carries `type` and `subtypeOf` to its node;
@@ -196,9 +210,33 @@ example : PlainCanon exG [tA, tF tA] ∧ tC ∈ exG.canon ∧
         (GraphEx.root, .tf "containsType", .ns "A"), (.b 0, .tf "subtypeOf", .ns "A")] :=
   ⟨exG_plain, by simp [exG], annC_triples⟩
 
-/-- **The same for the leaves of an expression.** An operator leaf whose output type is the canonical `t`
-(types on, node essential) … -/
+/-- **The same for the leaves of an expression.** An operator leaf whose output type, READ THROUGH THE GRAPH'S STORE,
+is the canonical `t`: `normT G.store (outputType 1000 ty) = t.toTerm` (`output()` walks the stored type object, the
+result is normalised; types on, node essential) … -/
 theorem C07_op_subtypeOf (G : GLang) (c : GCfg) (hcT : c.withCanonicalTypes = false)
+    (hS : c.withSupertypes = true) (hTy : c.withTypes = true) (root : Node) (origin : Option Node) (g : GState)
+    (l : List (Term × Node)) (hg : g.typeNodes = (initGraph G c).typeNodes ++ l) (name : String) (ty : Term)
+    (t : Ty) (hout : normT G.store (outputType 1000 ty) = t.toTerm) (hC : memTy t G.canon = true) (cur : Nat)
+    (inter : Bool) (hE : (c.withIntermediateTypes || !inter) = true) (g' : GState) (n : Nat)
+    (h : addExpr G c root origin g (.op name ty) (some cur) inter = .ok (g', n)) (o : Node) :
+    (Node.b cur, Node.tf "subtypeOf", o) ∈ g'.triples ↔
+      ((Node.b cur, Node.tf "subtypeOf", o) ∈ g.triples ∨
+        ∃ s, (s = t ∨ s ∈ langSucc G.types G.cfg G.canon (G.canon.length + 2) true t true) ∧
+          typeUri G s.toTerm = .ok o) :=
+  addExpr_op_subtypeOf G c hcT hS hTy root origin g l hg name ty t hout hC cur inter hE g' n h o
+
+/-- non-vacuity with a stale type: `h : A → x0` where the store binds `x0 := B`; the node gets `B` and `A` -/
+example : normT exGs.store (outputType 1000 (tmFn tmA (.var 0))) = tB.toTerm ∧
+    ((addExpr exGs {} GraphEx.root none (initGraph exGs {}) (.op "h" (tmFn tmA (.var 0))) (some 7) false).toOption.map
+      (fun p => (p.2, p.1.triples)))
+    = some (7, [(.b 7, .tf "via", .ns "h"), (GraphEx.root, .tf "containsOperation", .ns "h"),
+        (.b 7, .tf "type", .ns "B"), (.b 7, .tf "subtypeOf", .ns "B"), (GraphEx.root, .tf "containsType", .ns "B"),
+        (GraphEx.root, .tf "containsType", .ns "A"), (.b 7, .tf "subtypeOf", .ns "A")]) :=
+  ⟨normT_stale_out, staleOp_triples⟩
+
+/-- the special case in which the STORED output type is already the canonical `t` (the statement as it was before
+the store was modelled: a variable-free type is read unchanged through every store) -/
+theorem C07_op_subtypeOf_stored (G : GLang) (c : GCfg) (hcT : c.withCanonicalTypes = false)
     (hS : c.withSupertypes = true) (hTy : c.withTypes = true) (root : Node) (origin : Option Node) (g : GState)
     (l : List (Term × Node)) (hg : g.typeNodes = (initGraph G c).typeNodes ++ l) (name : String) (ty : Term)
     (t : Ty) (hout : outputType 1000 ty = t.toTerm) (hC : memTy t G.canon = true) (cur : Nat) (inter : Bool)
@@ -208,9 +246,10 @@ theorem C07_op_subtypeOf (G : GLang) (c : GCfg) (hcT : c.withCanonicalTypes = fa
       ((Node.b cur, Node.tf "subtypeOf", o) ∈ g.triples ∨
         ∃ s, (s = t ∨ s ∈ langSucc G.types G.cfg G.canon (G.canon.length + 2) true t true) ∧
           typeUri G s.toTerm = .ok o) :=
-  addExpr_op_subtypeOf G c hcT hS hTy root origin g l hg name ty t hout hC cur inter hE g' n h o
+  addExpr_op_subtypeOf_stored G c hcT hS hTy root origin g l hg name ty t hout hC cur inter hE g' n h o
 
-/-- … and a source leaf that has no node yet, of canonical type `t`. -/
+/-- … and a source leaf that has no node yet, whose STORED type is the canonical `t` (statement unchanged: the stored
+type `t.toTerm` is variable-free, so it is canonical as stored and `normT G.store t.toTerm = t.toTerm`). -/
 theorem C07_src_subtypeOf (G : GLang) (c : GCfg) (hcT : c.withCanonicalTypes = false)
     (hS : c.withSupertypes = true) (hTy : c.withTypes = true) (root : Node) (origin : Option Node) (g : GState)
     (l : List (Term × Node)) (hg : g.typeNodes = (initGraph G c).typeNodes ++ l) (id : Nat) (lbl : Option String)
@@ -222,5 +261,22 @@ theorem C07_src_subtypeOf (G : GLang) (c : GCfg) (hcT : c.withCanonicalTypes = f
         ∃ s, (s = t ∨ s ∈ langSucc G.types G.cfg G.canon (G.canon.length + 2) true t true) ∧
           typeUri G s.toTerm = .ok o)) :=
   addExpr_src_subtypeOf G c hcT hS hTy root origin g l hg id lbl t hC hnew cur inter g' n h o
+
+/-- **Stale source type.** A new source leaf whose STORED type is not canonical — for instance because it still shows
+a variable, even one the store has bound to a canonical type since — gets no `subtypeOf` triple at all (Python decides
+`expr.type in canon` by hashing the stored type object); its `type` triple points to the node of `normT G.store ty`. -/
+theorem C07_src_stale (G : GLang) (c : GCfg) (root : Node) (origin : Option Node) (g : GState) (id : Nat)
+    (lbl : Option String) (ty : Term) (hC : inCanon G ty = false)
+    (hnew : g.srcNodes.find? (fun p => p.1 == id) = none) (cur : Option Nat) (inter : Bool) (g' : GState) (n : Nat)
+    (h : addExpr G c root origin g (.src id lbl ty) cur inter = .ok (g', n)) (s o : Node)
+    (ht : (s, Node.tf "subtypeOf", o) ∈ g'.triples) : (s, Node.tf "subtypeOf", o) ∈ g.triples :=
+  addExpr_src_stale G c root origin g id lbl ty hC hnew cur inter g' n h s o ht
+
+/-- a source stored with type `x0`, the store binds `x0 := B`: `type B`, no `subtypeOf` -/
+example : inCanon exGs (.var 0) = false ∧ normT exGs.store (.var 0) = tB.toTerm ∧
+    ((addExpr exGs {} GraphEx.root none (initGraph exGs {}) (.src 0 none (.var 0)) (some 7) false).toOption.map
+      (fun p => (p.2, p.1.triples)))
+    = some (7, [(.b 7, .tf "type", .ns "B"), (GraphEx.root, .tf "containsType", .ns "B")]) :=
+  ⟨by decide, normT_stale_var, staleSrc_triples⟩
 
 end Tfv.C07Graph
